@@ -257,3 +257,37 @@ Proof.
     destruct (utf8_decode1_cases b rest) as [[_ E]|[Hf _]]; [|congruence].
     rewrite E, IH by (cbn in Hs; lia || exact Hrest). reflexivity.
 Qed.
+
+(* ---------- link to theorem C18: IterateBytes of the BitList = pack8 of the bit sequence ---------- *)
+Lemma byte_at_shift b7 b6 b5 b4 b3 b2 b1 b0 l i :
+  byte_at (b7 :: b6 :: b5 :: b4 :: b3 :: b2 :: b1 :: b0 :: l) (S i) = byte_at l i.
+Proof.
+  unfold byte_at.
+  replace (8 * S i + 0)%nat with (S (S (S (S (S (S (S (S (8 * i + 0))))))))) by lia.
+  replace (8 * S i + 1)%nat with (S (S (S (S (S (S (S (S (8 * i + 1))))))))) by lia.
+  replace (8 * S i + 2)%nat with (S (S (S (S (S (S (S (S (8 * i + 2))))))))) by lia.
+  replace (8 * S i + 3)%nat with (S (S (S (S (S (S (S (S (8 * i + 3))))))))) by lia.
+  replace (8 * S i + 4)%nat with (S (S (S (S (S (S (S (S (8 * i + 4))))))))) by lia.
+  replace (8 * S i + 5)%nat with (S (S (S (S (S (S (S (S (8 * i + 5))))))))) by lia.
+  replace (8 * S i + 6)%nat with (S (S (S (S (S (S (S (S (8 * i + 6))))))))) by lia.
+  replace (8 * S i + 7)%nat with (S (S (S (S (S (S (S (S (8 * i + 7))))))))) by lia.
+  cbn [nth]. reflexivity.
+Qed.
+
+Lemma byte_at_head b7 b6 b5 b4 b3 b2 b1 b0 l :
+  byte_at (b7 :: b6 :: b5 :: b4 :: b3 :: b2 :: b1 :: b0 :: l) 0 = bits_val [b7; b6; b5; b4; b3; b2; b1; b0] 0.
+Proof. destruct b7, b6, b5, b4, b3, b2, b1, b0; reflexivity. Qed.
+
+(* on a whole number of bytes the model's bytes_of_bits is the byte view pack8 of the
+   boolean-sequence specification of C18 (what GetBytes / IterateBytes return) *)
+Theorem bytes_of_bits_pack8 l : octets l -> bytes_of_bits l = pack8 l.
+Proof.
+  intros H. induction H as [|b7 b6 b5 b4 b3 b2 b1 b0 l H IH]; [reflexivity|].
+  cbn [bytes_of_bits]. rewrite IH. unfold pack8.
+  destruct (octets_length l H) as [n Hn].
+  replace ((length (b7 :: b6 :: b5 :: b4 :: b3 :: b2 :: b1 :: b0 :: l) + 7) / 8)%nat with (S n)
+    by (cbn [length]; rewrite Hn; zify; lia).
+  replace ((length l + 7) / 8)%nat with n by (rewrite Hn; zify; lia).
+  cbn [seq map]. rewrite byte_at_head. f_equal.
+  rewrite <- seq_shift, map_map. apply map_ext. intros i. symmetry. apply byte_at_shift.
+Qed.
